@@ -64,7 +64,7 @@ def build(np, rng, cfg):
     if cfg.get("lmul"):
         for _ in range(50):
             Le = np.eye(nel) + 0.3 * rng.standard_normal((nel, nel))
-            if np.linalg.cond(Le) <= 30:
+            if np.linalg.cond(Le) <= 10:
                 break
         L[np.ix_(el, el)] = Le
         M, B, K = L @ M, L @ B, L @ K              # same response for forces L f; nothing is symmetric any more
